@@ -167,7 +167,18 @@ func evalC16Scenario(sc c16Scenario) *Failure {
 	return evalC16History(hist)
 }
 
+// evalC16Wide: everything a command does happens before it is answered (see c05Wide): a handler call still running or
+// started after the reply is an effect outside the command.
+func evalC16Wide(c c05Wide) *Failure {
+	f := evalC05Wide(c)
+	if f != nil && strings.HasPrefix(f.Key, "c05|calls-after-reply") {
+		return failf("c16|effects-after-reply|"+c.Cmd, "%s", f.Detail)
+	}
+	return nil
+}
+
 func init() {
+	register("c16.wide", evalC16Wide)
 	register("c16.history", evalC16History)
 	register("c16.scenario", evalC16Scenario)
 }
@@ -441,7 +452,7 @@ func TestC16(t *testing.T) {
 	h := newHarness(t, "C16", "concurrent histories of GET/SET/SETNX/GETSET/INCR/DECRBY/APPEND/MSETNX/DEL (one or several keys) over 1..3 keys. CONTROLLED mode (reference store with a turnstile before every primitive handler call): client A is parked at its g-th primitive call "+
 		"(g in 0..2, i.e. before Get, between Get and Set, ...) while client B's command is started - exhaustively for all pairs of operation kinds x g x {key absent, key=5}, and in random multi-round sequences; "+
 		"UNCONTROLLED mode: 2..8 clients x 1..4 operations on real goroutines against the reference store and against the bundled example store. Oracle: the recorded client-side history (logical-clock invoke/return stamps) must be linearizable "+
-		"against the sequential Redis model (porcupine, complete search). TURNS mode: 2..3 clients taking turns without overlap against both stores (the history's only admissible order is the real-time one; state cached per connection shows here). SLOW-READER mode: a client's command has been executed but its reply is held back while two other clients work, then delivered. In controlled and hammer runs a client may first receive an error reply (INCR of a non-integer). "+
+		"against the sequential Redis model (porcupine, complete search). TURNS mode: 2..3 clients taking turns without overlap against both stores (the history's only admissible order is the real-time one; state cached per connection shows here). SLOW-READER mode: a client's command has been executed but its reply is held back while two other clients work, then delivered. WIDE commands (MSET/MSETNX/MGET/DEL over 2..40 keys) against a handler that takes a moment per call and fails at one: no handler call may be running or started once the command is answered. In controlled and hammer runs a client may first receive an error reply (INCR of a non-integer). "+
 		"Non-trivial: two operations of different clients on the same key overlap in time and at least one writes (turns mode: operations of at least two clients). Distinct = distinct history (operations, order and results).")
 	defer h.Finish()
 	h.Probes()
@@ -559,6 +570,14 @@ func TestC16(t *testing.T) {
 		sort.Slice(hist.Ops, func(i, j int) bool { return hist.Ops[i].Call < hist.Ops[j].Call })
 		h.Col.Case(overlapping(hist), []byte(fmt.Sprint(hist.Store, hist.Init, hist.Ops)), "hammer:"+kind, "store:"+p.Store)
 		h.Fail(rt, "c16.history", hist, evalC16History(hist))
+	})
+
+	// (e) commands over many keys with a slow, failing handler: no effect after the reply
+	h.Rapid("wide", h.N(60, 2000), func(rt *rapid.T) {
+		c := c05Wide{Cmd: rapid.SampledFrom([]string{"MSET", "MSETNX", "MGET", "DEL"}).Draw(rt, "cmd"), N: rapid.SampledFrom([]int{2, 8, 9, 16, 40}).Draw(rt, "n"), DelayUS: rapid.SampledFrom([]int{200, 1000}).Draw(rt, "delay")}
+		c.ErrAt = rapid.IntRange(-1, c.N).Draw(rt, "errat")
+		h.Col.Case(c.N >= 8, []byte(fmt.Sprint("wide", c)), "wide-command")
+		h.Fail(rt, "c16.wide", c, evalC16Wide(c))
 	})
 
 	// (c) several clients taking turns (no overlap in time): the degenerate histories whose only sequential order is the real-time one
